@@ -638,6 +638,7 @@ func stdIntrinsics(e *Engine) map[string]intrinsic {
 	delete(m, "math/bits.Len64")
 
 	addFmt(e, m)
+	addRegexp(e, m)
 	addReflect(e, m)
 	addMisc(e, m)
 	return m
